@@ -140,6 +140,15 @@ func normaliseFuncKey(raw, pkgPath string) string {
 	if strings.HasPrefix(raw, "field:") {
 		return raw
 	}
+	if strings.HasPrefix(raw, "param:") {
+		// param:(*Selection).ReplaceWith.replacer -> param:(*pkg/path.Selection).ReplaceWith.replacer
+		rest := raw[6:]
+		i := strings.LastIndex(rest, ".")
+		if i < 0 {
+			return raw
+		}
+		return "param:" + normaliseFuncKey(rest[:i], pkgPath) + rest[i:]
+	}
 	if strings.HasPrefix(raw, "(") {
 		end := strings.Index(raw, ")")
 		recv := raw[1:end]
